@@ -444,7 +444,8 @@ Definition parse_file (input : list N) (ff : bool) : outcome presult :=
 
 (* ---- flattened position dumps (the observables of the correspondence) ----------- *)
 (* node kinds: 1 header/block 2 assign 3 desc 4 comment-fragment 5 close 6 reference 7 ident
-   8 tag 9 value(scalar) 10 value(array) 11 trailing comment 12 header description *)
+   8 tag 9 value(scalar) 10 value(array) 11 trailing comment 12 header description
+   15 TagValue.MarkToken 16 Description.Tokens[i] 17 Value.token (13/14 bracket a block body) *)
 Definition pnode : Type := (N * pos * pos)%type.
 
 Definition ref_nodes (r : reference) : list pnode :=
@@ -452,20 +453,27 @@ Definition ref_nodes (r : reference) : list pnode :=
 
 Fixpoint value_nodes (v : value) : list pnode :=
   match v with
-  | VTok _ s e => [(9%N, s, e)]
+  | VTok t s e => [(9%N, s, e); (17%N, tstart t, tend t)]       (* the value, and Value.token *)
   | VArr vs s e => (10%N, s, e) :: flat_map value_nodes vs
   end.
 
+(* TagValue.MarkToken, when there is a mark *)
+Definition mark_nodes (t : tag) : list pnode :=
+  match tmark_tok t with Some mt => [(15%N, tstart mt, tend mt)] | None => [] end.
 Definition tag_nodes (t : tag) : list pnode :=
-  (8%N, tgstart t, tgend t) ::
+  (8%N, tgstart t, tgend t) :: mark_nodes t ++
   match tbody t with TagRef r => ref_nodes r | TagVal v => value_nodes v end.
+
+(* a description (kind 3 as a statement, 12 in a header) and its Tokens *)
+Definition desc_nodes (k : N) (d : descr) : list pnode :=
+  (k, dsstart d, dsend d) :: map (fun t => (16%N, tstart t, tend t)) (dtoks d).
 
 Definition comment_nodes (c : option comment) : list pnode :=
   match c with Some c => [(11%N, cstart c, cend c)] | None => [] end.
 
 Definition header_nodes (h : header) : list pnode :=
   (1%N, hstart h, hend h) :: ref_nodes (htype h) ++ flat_map tag_nodes (htags h) ++ flat_map tag_nodes (hquals h)
-  ++ (match hdesc h with Some d => [(12%N, dsstart d, dsend d)] | None => [] end) ++ comment_nodes (hcomment h).
+  ++ (match hdesc h with Some d => desc_nodes 12 d | None => [] end) ++ comment_nodes (hcomment h).
 
 Definition assign_nodes (a : assign) : list pnode :=
   (2%N, astart a, aend a) :: ref_nodes (akey a) ++ value_nodes (avalue a) ++ comment_nodes (acomment a).
@@ -474,7 +482,7 @@ Definition frag_nodes (f : fragment) : list pnode :=
   match f with
   | FHeader h => header_nodes h
   | FAssign a => assign_nodes a
-  | FDesc d => [(3%N, dsstart d, dsend d)]
+  | FDesc d => desc_nodes 3 d
   | FComment t => [(4%N, tstart t, tend t)]
   | FClose t => [(5%N, tstart t, tend t)]
   end.
@@ -483,5 +491,5 @@ Fixpoint stmt_nodes (s : stmt) : list pnode :=
   match s with
   | SBlock h body => header_nodes h ++ (13%N, pos0, pos0) :: flat_map stmt_nodes body ++ [(14%N, pos0, pos0)]
   | SAssign a => assign_nodes a
-  | SDesc d => [(3%N, dsstart d, dsend d)]
+  | SDesc d => desc_nodes 3 d
   end.
